@@ -23,14 +23,18 @@ type cfg struct {
 	tb       *model.Table
 	customNF bool
 	customNA bool
+	nGlobal  int // pass-through global middleware (they must not change the resolution)
 }
 
 func (c cfg) String() string {
-	return fmt.Sprintf("customNotFound=%v customNotAllowed=%v %s", c.customNF, c.customNA, c.tb)
+	return fmt.Sprintf("customNotFound=%v customNotAllowed=%v globalMw=%d %s", c.customNF, c.customNA, c.nGlobal, c.tb)
 }
 
 func build(c cfg, opts model.Options) *rux.Router {
-	r := rux.New(opts.Rux()...)
+	r := opts.NewRouter()
+	for i := 0; i < c.nGlobal; i++ {
+		r.Use(func(c *rux.Context) { c.Next() })
+	}
 	model.Register(r, c.tb.Routes, func(d model.RouteDef) rux.HandlerFunc {
 		name := d.Name()
 		return func(c *rux.Context) { c.WriteString(name) }
@@ -156,9 +160,10 @@ func prop(t *rapid.T) {
 		o.Caching = true
 		o.CacheCap = rapid.IntRange(0, 3).Draw(t, "cap")
 	}
-	o.Order = model.GenOrder(t)
+	o.Order, o.Via = model.GenOrder(t), model.GenVia(t)
 	c.customNF = rapid.Bool().Draw(t, "customNF")
 	c.customNA = rapid.Bool().Draw(t, "customNA")
+	c.nGlobal = rapid.IntRange(0, 2).Draw(t, "nGlobalMw")
 	tc := model.TableCfg{MaxRoutes: ev.Pick(6, 10), Gen: model.GenCfg{MaxSegs: 3, RichLits: false}, Fallback: true}
 	c.tb.Routes = model.GenRoutes(t, tc, o.Strict)
 	if len(c.tb.Routes) == 0 {
